@@ -222,3 +222,18 @@ pub fn stack_is<T: Clone + PartialEq>(s: &push::push_vm::stack::Stack<T>, m: &[T
     }
     ok
 }
+
+/// contents comparison through the read-only API (no clone, no loop): complete up to depth 3; at depth 4+ the three
+/// top elements and the size are compared (`m` is bottom-first)
+pub fn stack_matches<T: PartialEq>(s: &push::push_vm::stack::Stack<T>, m: &[T]) -> bool {
+    let n = m.len();
+    if s.size() != n {
+        return false;
+    }
+    match n {
+        0 => true,
+        1 => matches!(s.top(), Ok(a) if *a == m[0]),
+        2 => matches!(s.top2(), Ok((a, b)) if *a == m[1] && *b == m[0]),
+        _ => matches!(s.top3(), Ok((a, b, c)) if *a == m[n - 1] && *b == m[n - 2] && *c == m[n - 3]),
+    }
+}
